@@ -78,3 +78,16 @@ def panic_rule(ctx, rep, rule, facts, root_pred, void_rules=(), only=None):
                           "table; reachable from the entry set via %s" % (s.text, chain))
     rep.count("panic_capable_sites", nsites)
     return nsites
+
+
+def thorough_configs(ctx, rep, rule, root_pred, void):
+    """re-evaluate the inventory under every feature configuration that builds offline ("cover what the build covers")"""
+    import sys
+    sys.path.insert(0, ctx.here)
+    from verif_configs import CONFIG_NAMES
+    for name in CONFIG_NAMES:
+        if name == "default":
+            continue
+        facts = ctx.facts_config(name)
+        rep.configs.append(name)
+        panic_rule(ctx, rep, "%s[%s]" % (rule, name), facts, root_pred, void_rules=void)
